@@ -1,4 +1,6 @@
 import MD.Proofs.TableLemmas
+import Mathlib.Algebra.Order.Field.Rat
+import Mathlib.Tactic.NormNum.Basic
 
 /-! # C10 — `compute_marginal(y_obs, y_pred, X, feature_name, predict_function, weights, n_bins, ...)`
 
@@ -79,7 +81,7 @@ theorem C10_edges_span (m : BinMethod) (nBins : Nat) (given : List K) (feature :
       i ≤ (tbl_inner m nBins given feature).length) := by
   refine ⟨?_, ?_, ?_, tbl_bins_le m nBins given feature⟩
   · simp [tbl_full]
-  · simp [tbl_full, List.getD_eq_getElem?_getD, List.getElem?_append_right]
+  · simp [tbl_full, List.getD_eq_getElem?_getD]
   · simp [tbl_full]
 
 /-- all edges are weakly increasing: `min ≤ inner[0] ≤ … ≤ max` whenever the interior edges lie in
@@ -172,4 +174,44 @@ theorem C10_pooled_identified_utf8 (nBins : Nat)
   C10_pooled_identified none nBins feature cfeature rowEdges cols ws
     (fun s hs => (tbl_mem_distinctVals feature s).2 hs) r s hr hs
 
+/-! ## examples: the hypotheses are satisfiable on concrete inputs -/
+
+/-- `C10_bias_consistency`: columns as long as the key column -/
+example : ([1, 2, 3] : List ℚ).length = [Key.num 0, Key.null, Key.num 0].length ∧
+    ([2, 2, 5] : List ℚ).length = [Key.num 0, Key.null, Key.num 0].length := ⟨rfl, rfl⟩
+
+/-- `C10_mean_linear` -/
+example : (groupStat (List.zipWith (fun p y => p - y) [2, 2, 5] [1, 2, 3]) ([1, 1, 2] : List ℚ)).mean =
+    (groupStat [2, 2, 5] [1, 1, 2]).mean - (groupStat [1, 2, 3] [1, 1, 2]).mean :=
+  C10_mean_linear _ _ _ rfl
+
+/-- `C10_edges_contain_members` with supplied (`numpy`) edges: they have to be sorted -/
+example : ([1, 2] : List ℚ).Pairwise (· ≤ ·) := by simp
+
+/-- `C10_edges_cover`: row 0 of a three-row column -/
+example : ∃ i, (binNumeric .uniform 3 [] [Cell.fin (1 : ℚ), .null, .fin 3]).bins[0]? = some (some i) := by
+  rw [tbl_bins_row .uniform 3 [] [Cell.fin (1 : ℚ), .null, .fin 3] 0 (.fin 1) rfl]
+  exact ⟨_, rfl⟩
+
+/-- `C10_pooled_identified` for an Enum column: the values are declared categories -/
+example : ∀ s, some s ∈ [some "a", some "c", none] →
+    s ∈ tbl_existing (some ["a", "b", "c"]) [some "a", some "c", none] := by
+  intro s hs
+  simp at hs
+  rcases hs with rfl | rfl <;> simp [tbl_existing]
+
 end MD.Props
+
+/-
+`#print axioms` (observed with `lake env lean MD/Props/C10.lean`):
+'MD.Props.C10_mean_linear' depends on axioms: [propext, Classical.choice, Quot.sound]
+'MD.Props.C10_bias_consistency' depends on axioms: [propext, Classical.choice, Quot.sound]
+'MD.Props.C10_bias_consistency_length' depends on axioms: [propext, Quot.sound]
+'MD.Props.C10_edges_cover' depends on axioms: [propext, Quot.sound]
+'MD.Props.C10_edges_span' depends on axioms: [propext, Classical.choice, Quot.sound]
+'MD.Props.C10_edges_consecutive' depends on axioms: [propext, Quot.sound]
+'MD.Props.C10_table_edges' depends on axioms: [propext, Classical.choice, Quot.sound]
+'MD.Props.C10_edges_contain_members' depends on axioms: [propext, Classical.choice, Quot.sound]
+'MD.Props.C10_pooled_identified' depends on axioms: [propext, Classical.choice, Quot.sound]
+'MD.Props.C10_pooled_identified_utf8' depends on axioms: [propext, Classical.choice, Quot.sound]
+-/
